@@ -10,7 +10,7 @@ CLAIMED = {
  "C01": dict(
    text="Theorems: C01_parse_print (for every well-formed source tree of text / {{var}} / <comp> nested to any depth incl. same-name nesting and whitespace variants, "
         "ParsedValue::new of its printing succeeds and denotes evalSrc of the source), C01_closing_tag_found (Dyck invariant of find_closing_tag), C01_reduce_sound/_shape/_total "
-        "(flattening keeps the denotation, never errs), C02_tuple_flatten (26-wide tuple chunking drops/reorders nothing). Correspondence: parser harness vs model on sources and token soup; "
+        "(flattening keeps the denotation, never errs), C02_tuple_flatten (26-wide tuple chunking drops/reorders nothing); end to end over the whole modelled pipeline + generator (Theorems/C01EndToEnd.lean): C01_end_to_end(_ns/_string/_flavours/_of_config): if Pipeline.run succeeds, then for every namespace, every leaf key path of any depth, every configured locale and every argument environment the generated accessor (view and string back-ends) renders exactly eval of the source value of the effective (fallback) locale; C01_nothing_from_elsewhere (the text depends on nothing but that source value and the arguments). Correspondence: parser harness vs model on sources and token soup; "
         "denotation of the implementation's final trees vs evalSrc for every string key of generated projects; compiled probe crates (load_locales!) rendering td_string!/td_display!/td! vs the denotation.",
    note=BASE + "serde/json decoding, syn ident validity beyond ASCII, rustc/TypedBuilder/leptos rendering are trusted (probe crates exercise them). Strings outside the well-formed grammar are tied by correspondence only. No hooks.",
    tech=P, ref="§6 C01, notes/C01.md, notes/C01Reduce.md"),
@@ -39,9 +39,9 @@ CLAIMED = {
    note=BASE + "CLDR plural rules (ICU4X compiled data) are an oracle, not verified. No whole-map statement for merge_plurals (per-group + loop invariant).", tech=P, ref="§6 C05, notes/C05.md"),
  "C06": dict(
    text="Theorems: C06_populate_subst (eval of populate v args = eval of v under the substituted environment: variables, literal counts fixing the branch, renamed counts; mutual induction over all value kinds), C06_populate_chain, "
-        "C06_resolveNode_sound, C06_resolved_no_notset, C06_resolve_missing/_cycle/_self_reference/_two_cycle, C06_populate_errors (subkey target rejected), C06_resolve_fuel_monotone, C06_order_independent_partial (memoisation lemma). "
+        "C06_resolveNode_sound, C06_resolved_no_notset, C06_resolve_missing/_cycle/_self_reference/_two_cycle, C06_populate_errors (subkey target rejected), C06_resolve_fuel_monotone, C06_resolveAll_memo + C06_order_independent(_perm/_leaf/_eval/_full_of_wf) (Theorems/C06Order.lean: the resolved values are a function of the original world, whatever the order and the fuel in which resolve_foreign_keys visits the keys), C06_resolveAll_repeat (idempotent). "
         "Correspondence: reference graphs (chains to depth 6, every argument kind, targets of every kind, namespaces, null targets) and all cyclic graphs on <=3 (4) keys: the referencing key's denotation = target's denotation under substitution.",
-   note=BASE + "Order independence of resolve_foreign_keys is proved at value level only (swap lemma over the whole world not proved: C06_order_independent_full_statement). Known finding F11/F20 (null/absent target in an inheriting locale) recorded.", tech=P, ref="§6 C06, notes/C06.md"),
+   note=BASE + "Order independence is proved for worlds satisfying WorldWF (distinct keys per locale — what decoding produces); leaf equality, not pointer identity of shared cells. Known finding F11/F20 (null/absent target in an inheriting locale) recorded.", tech=P, ref="§6 C06, notes/C06.md"),
  "C07": dict(
    text="Theorems: C07_builder_keys_eq_default, C07_merge_preserves_keys/_tree, C07_warnings_exact_flat/_nested, C07_check_warnings_exact (the warnings of check_locales_inner are exactly the spec list, in order), C07_no_warning_for_default, "
         "C07_warnings_nodup_flat, C07_inherits_silences_missing, C07_suppress_silences_surplus, C07_subkey_mismatch_error. Correspondence: both feature builds (suppress_key_warnings on/off): emitted warnings as a multiset vs the set computed independently from the files.",
@@ -53,20 +53,20 @@ CLAIMED = {
    note=BASE + "`Compiles iff exactly that set is supplied` is TypedBuilder type-state: trusted, exercised by probe crates only.", tech=P, ref="§6 C08, notes/C08.md"),
  "C09": dict(
    text="Theorems: C09_parse_no_panic (for EVERY string ParsedValue::new's model reaches no panic outcome; fuel |s|+1 suffices: every recursive call is on a strictly shorter string, incl. decoded foreign-key arguments), C09_parse_fuel_irrelevant, "
-        "C09_depth_linear, C09_decode_no_panic, C09_slices_in_bounds_*, C09_range_new_total; with C01_reduce_ok_of_clean, C06_resolved_no_notset, C02_codegen_total for the later stages. Correspondence: parser, code generator (in-process) and build helper under catch_unwind on token soup, "
+        "C09_depth_linear, C09_decode_no_panic, C09_slices_in_bounds_*, C09_range_new_total; whole pipeline (Theorems/C09Pipeline.lean): C09_pipeline_no_panic(_of_config): for every configuration produced by Config.new and EVERY set of decoded files, Pipeline.run (decode, merge plurals, resolve foreign keys, check, index strings, builder keys) returns ok or a diagnostic, never a panic outcome, with sufficient fuel at every stage; C02_codegen_total + C01_source_renderable for the generator. Correspondence: parser, code generator (in-process) and build helper under catch_unwind on token soup, "
         "byte-mutated files, past panic witnesses (F1-F7, F18, F19, F21) and generated projects; deep inputs in subprocesses.",
    note=BASE + "Stack exhaustion is runtime behaviour the model cannot exhibit (only a linear depth bound is proved): known finding F8. Offsets are character offsets in the model; byte/char boundary safety is tied by the correspondence with multibyte characters next to every delimiter.",
    tech=P + "; panic sites are explicit outcomes", ref="§6 C09, notes/C09.md"),
  "C10": dict(
-   text="Theorems: C10_amap_perm (BTreeMap built from a permutation of entries with distinct keys is the same map), C10_locale_keys_perm (decoding an object is invariant under permutation of its entries when trimmed keys are distinct), "
-        "C10_duplicate_key_order_dependent (witness F13: \"a\" and \"a \" collide — why the hypothesis is there). The model is a pure function, which gives run-to-run determinism of what it covers. Correspondence: each project loaded twice, with permuted entries, "
+   text="Theorems: C10_amap_perm (BTreeMap built from a permutation of entries with distinct keys is the same map), C10_locale_keys_perm (decoding an object is invariant under permutation of its entries — no distinctness hypothesis since the fix of F13: C10_duplicate_key_rejected, C10_locale_keys_perm_fails), "
+        "C10_duplicate_key_order_dependent (the pre-fix behaviour, kept as the regression witness); with C06_order_independent for the visiting order of foreign keys. The model is a pure function, which gives run-to-run determinism of what it covers. Correspondence: each project loaded twice, with permuted entries, "
         "and written as JSON / JSON5 / YAML (three feature builds): identical keys, diagnostics and rendered text; generated code of two fresh generator processes identical.",
-   note=BASE + "YAML/JSON5 front-ends are oracles compared through the implementation's dumps. Keys equal after trimming (F13) make the result order-dependent: recorded finding, generators do not produce them.", tech=P, ref="§6 C10, notes/C10.md"),
+   note=BASE + "YAML/JSON5 front-ends are oracles compared through the implementation's dumps. Keys equal after trimming (F13) are rejected since fix b1a986a.", tech=P, ref="§6 C10, notes/C10.md"),
  "C11": dict(
    text="Theorems: C11_push_str, C11_index_sound/_full (after index_strings every string literal carries an index i with table[i] = its text; table grows at the end, no duplicates), C11_table_length (count = table length for every locale; propagate gives nested subkey locales "
-        "their top locale's count, any depth), C11_locale_tables_partial (end-to-end for the default locale), C11_json_roundtrip (the exported file decodes to the same strings for ALL Unicode strings). Correspondence: invariants checked on every locale of generated projects; "
+        "their top locale's count, any depth), C11_locale_tables (every locale, through mergeKeys: Theorems/C11Full.lean), C11_accessors_read_their_text, C11_pipeline(_of_config) (whenever Pipeline.run succeeds every accessible literal of every locale and namespace carries an index into its top locale's table holding exactly its text; Theorems/C11Pipeline.lean), C11_json_roundtrip (the exported file decodes to the same strings for ALL Unicode strings). Correspondence: invariants checked on every locale of generated projects; "
         "build helper write_to_dir files decoded with a strict JSON reader (Lean spec) and serde_json.",
-   note=BASE + "End-to-end index validity through mergeKeys is proved for the default locale only (C11_locale_tables_full_statement unproved); other locales are covered by the correspondence.", tech=P, ref="§6 C11, notes/C11.md, notes/C11json.md"),
+   note=BASE + "Surplus keys (present only in a non-default locale, never rendered) are not indexed: the statement is about accessible keys.", tech=P, ref="§6 C11, notes/C11.md, notes/C11json.md"),
  "C12": dict(
    text="Lean theorems over a model of langid.rs (filter_matches/find_match): for all request lists and all supported sets the chosen "
         "locale is supported, matches the first request any supported locale serves, is the exact match if one exists and otherwise a most "
@@ -94,7 +94,7 @@ CLAIMED = {
    tech="Lean 4 proof (decision logic) + exhaustive differential correspondence", ref="§6 C15, notes/C15.md"),
  "C16": dict(
    text="Refinement theorem: for every operation sequence over a tree of contexts (set, set_untracked, get, scope, subcontext, closures) the model's observations equal the abstract spec CtxId→Locale "
-        "(latest set wins; scoped views share the cell; sub-contexts isolated) — C16_refinement, C16_isolation(_seq), C16_scope_shares. Thin model: the correspondence (random op sequences on real I18nContexts) carries most of the weight.",
+        "(latest set wins; scoped views share the cell; sub-contexts isolated) — C16_refinement, C16_isolation(_seq), C16_scope_shares; reactive observers: C16_memo_refinement (Memos with leptos' laziness modelled: a tracked set marks every observer dirty, an untracked one none — C16_tracked_set_notifies(_after_untracked), C16_untracked_set_keeps_cache); provider components over an owner tree: C16_provider_scoping(_seq), C16_sibling_provider_inits_from_parent. Correspondence: random op sequences (set/set_untracked/get/scope/subcontext/memo/provider/child owner/use_context) on real I18nContexts and leptos owners vs model vs spec.",
    note=BASE + "leptos' reactive runtime (closure re-execution, RwSignal atomicity, effects) is trusted; the RenderEffect wiring an initial-locale signal is inert under ssr. See notes/C16.md.",
    tech="Lean 4 proof (refinement by induction over op lists) + differential correspondence", ref="§6 C16, notes/C16.md"),
  "C12": dict(
@@ -119,9 +119,9 @@ CLAIMED = {
    note=BASE + "The TOML parser is an oracle (model starts from the decoded table); `rest of Cargo.toml ignored` is tied by the correspondence only.", tech=P, ref="§6 C19, notes/C19.md"),
  "C20": dict(
    text="Theorems over a model of find_used_datakey: C20_options_iff / C20_plurals_iff / C20_formatter_iff (option in the set iff some builder key records a plural count / a formatter of that family, any subkey depth, all namespaces), "
-        "C20_key_uses_iff (with C08: iff some locale's value of that key contains such a node at any depth). Correspondence: build helper parse_at_dir + get_icu_keys + get_locales + get_namespaces on projects placing plurals/formatters only in a non-default locale / subkeys / via foreign key / one namespace: "
+        "C20_key_uses_iff (with C08: iff some locale's value of that key contains such a node at any depth); whole pipeline (Theorems/C20Full.lean, C20Pipeline.lean): C20_pipeline(_plurals/_formatter/_of_config): whenever Pipeline.run succeeds, an option is requested iff some accessible key of some locale of some namespace, after plural merging and foreign-key resolution, contains a plural / formatter node of that family; C20_locales (the locales reported are exactly the configured ones). Correspondence: build helper parse_at_dir + get_icu_keys + get_locales + get_namespaces on projects placing plurals/formatters only in a non-default locale / subkeys / via foreign key / one namespace: "
         "data keys = union of the used options' keys; locales = configured ones.",
-   note=BASE + "Whole-pipeline statement (C20_full_statement) and locales equality are unproved defs: tied by correspondence. That the data keys suffice for ICU4X at run time depends on ICU's tables (oracle).", tech=P, ref="§6 C20, notes/C20.md"),
+   note=BASE + "C20_full_statement as first written (quantifying over all keys incl. surplus keys of non-default locales) is false and is kept only as a def with the counterexample; the proved statement quantifies over accessible keys. That the data keys suffice for ICU4X at run time depends on ICU's tables (oracle).", tech=P, ref="§6 C20, notes/C20.md"),
 }
 PENDING = {}
 def main():
